@@ -20,7 +20,19 @@ FUNCTIONS = ['uxarray.remap.nearest_neighbor._nearest_neighbor@rank1',
     "uxarray.remap.inverse_distance_weighted._inverse_distance_weighted_remap_uxda@edge centers;dims=n_node",
     "uxarray.remap.inverse_distance_weighted._inverse_distance_weighted_remap_uxda@edge centers;dims=time,n_face",
     "uxarray.remap.inverse_distance_weighted._inverse_distance_weighted_remap_uxda@face centers;dims=n_node",
-    "uxarray.remap.inverse_distance_weighted._inverse_distance_weighted_remap_uxda@face centers;dims=time,n_face"]
+    "uxarray.remap.inverse_distance_weighted._inverse_distance_weighted_remap_uxda@face centers;dims=time,n_face",
+    'uxarray.remap.nearest_neighbor._nearest_neighbor_uxda@same_grid;nodes;dims=n_node',
+    'uxarray.remap.inverse_distance_weighted._inverse_distance_weighted_remap_uxda@same_grid;nodes;dims=n_node',
+    'uxarray.remap.nearest_neighbor._nearest_neighbor_uxda@same_grid;nodes;dims=time,n_face',
+    'uxarray.remap.inverse_distance_weighted._inverse_distance_weighted_remap_uxda@same_grid;nodes;dims=time,n_face',
+    'uxarray.remap.nearest_neighbor._nearest_neighbor_uxda@same_grid;edge centers;dims=n_node',
+    'uxarray.remap.inverse_distance_weighted._inverse_distance_weighted_remap_uxda@same_grid;edge centers;dims=n_node',
+    'uxarray.remap.nearest_neighbor._nearest_neighbor_uxda@same_grid;edge centers;dims=time,n_face',
+    'uxarray.remap.inverse_distance_weighted._inverse_distance_weighted_remap_uxda@same_grid;edge centers;dims=time,n_face',
+    'uxarray.remap.nearest_neighbor._nearest_neighbor_uxda@same_grid;face centers;dims=n_node',
+    'uxarray.remap.inverse_distance_weighted._inverse_distance_weighted_remap_uxda@same_grid;face centers;dims=n_node',
+    'uxarray.remap.nearest_neighbor._nearest_neighbor_uxda@same_grid;face centers;dims=time,n_face',
+    'uxarray.remap.inverse_distance_weighted._inverse_distance_weighted_remap_uxda@same_grid;face centers;dims=time,n_face']
 STANDINS = ["remapping", "remap_history"]
 ASSUMPTIONS = []
 EXPLANATION = ""
